@@ -27,6 +27,7 @@ RULE = (
     "equal to the written ones (fixed: padded), same end-of-data verdict. Non-trivial: >= 1 rejected row followed by "
     ">= 1 accepted row; distinct by hash of (CID rows, history)."
     "Rows are handed over one write_row() at a time or ('bulk') every run of acceptable rows - header and data alike - in one write_rows() call (list or iterator). The free-text field may be the first field and then sometimes starts with a byte order mark, 'sep=;', 'ID' or '#'."
+    "The writer may be given the path of the CID; a reader of the same CID file may start in the middle of the history."
 )
 ASSUMPTIONS = [
     "fixed-width values handed to the writer carry no trailing blanks (the format cannot represent them)",
